@@ -420,14 +420,14 @@ class Image:
         if isinstance(image.date, list):
             self.date = self.date + image.date
         else:
-            self.date.append(image.date)
+            self.date = self.date + [image.date]
 
         # Relative time - combine internal stored times
         if self._is_none(self.time) or self._is_none(image.time) or offset is None:
             time = None
         else:
             # Append relative times, plus offset
-            time = self.time if isinstance(self.time, list) else [self.time]
+            time = list(self.time) if isinstance(self.time, list) else [self.time]
             if isinstance(image.time, list):
                 time = time + [t + offset for t in image.time]
             else:
